@@ -63,11 +63,24 @@ fn random_scenario(seed: u64, run: u64) -> (Scenario, Vec<Abs>) {
             a.pace = "drip".into();
         }
         if route == "a" {
-            let kind = pick(&mut rng, &[("none", 12), ("drip", 10), ("refuse", 5), ("mute", 5), ("close", 18), ("reset", 14), ("garbage", 10), ("stall", 16), ("rststream", 6), ("between", 8)]);
-            let kind = if kind == "rststream" && back != "h2" { "close" } else { kind };
+            let kind = pick(&mut rng, &[("none", 12), ("drip", 10), ("refuse", 5), ("mute", 5), ("close", 18), ("reset", 14), ("garbage", 10), ("stall", 16), ("rststream", 6), ("between", 8), ("goaway", 8), ("interim", 8)]);
+            let kind = if (kind == "rststream" || kind == "goaway") && back != "h2" { "close" } else { kind };
             match kind {
                 "none" => {}
                 "drip" => { spec.fault = "drip".into(); spec.body = 3; a.pace = "drip".into(); }
+                "interim" => {
+                    // a 103 before the final response, in its own segment or in one segment with the final head
+                    let how = if rng.random_bool(0.5) { "sep" } else { "same" };
+                    spec.interim = how.into(); a.interim = how.into();
+                }
+                "goaway" => {
+                    // graceful GOAWAY(NO_ERROR) of the h2c backend: before HEADERS, between HEADERS and DATA, after the answer
+                    let at = pick(&mut rng, &[("prehdr", 3), ("posthdr", 2), ("between", 2)]);
+                    let lsid = if at == "prehdr" { pick(&mut rng, &[("below", 1), ("equal", 2), ("above", 1)]) } else { pick(&mut rng, &[("equal", 2), ("above", 1)]) };
+                    spec.fault = "goaway".into(); spec.at = at.into(); spec.lsid = lsid.into(); spec.split = rng.random_bool(0.5);
+                    a.fault = "goaway".into(); a.at = at.into(); a.lsid = lsid.into();
+                    if spec.split { a.pace = "split".into(); }
+                }
                 "refuse" | "mute" => { if backend_wide.is_none() { backend_wide = Some(kind); } }
                 "between" => {
                     let k = if rng.random_bool(0.6) { "close" } else { "reset" };
@@ -102,6 +115,8 @@ fn random_scenario(seed: u64, run: u64) -> (Scenario, Vec<Abs>) {
                     let at = if off == 0 { "prehdr" } else if off < head { "midhdr" } else if off == head { "posthdr" } else { "midbody" };
                     spec.fault = k.into(); spec.at = at.into(); spec.off = Some(off);
                     a.fault = k.into(); a.at = at.into();
+                    // the pacing dimension of close / reset: in a read of its own, or in one go with the bytes before it
+                    if (k == "close" || k == "reset") && off > 0 && rng.random_bool(0.4) { spec.split = true; a.pace = "split".into(); }
                     // on a shared h2c connection a stall inside a frame silences the connection
                     if k == "stall" && back == "h2" && !boundaries.contains(&off) { a.fault = "connstall".into(); }
                 }
@@ -132,6 +147,11 @@ fn random_scenario(seed: u64, run: u64) -> (Scenario, Vec<Abs>) {
         }
     }
     if !shared { for a in abs.iter_mut() { if a.fault == "connstall" { a.fault = "stall".into(); } } }
+    // a GOAWAY naming one stream also speaks about the other streams of the connection: with a second request on
+    // the backend only the "everything will be processed" form is scripted
+    if shared && mode != "seqgap" {
+        for (s, a) in reqs.iter_mut().zip(abs.iter_mut()) { if s.fault == "goaway" { s.lsid = "above".into(); a.lsid = "above".into(); } }
+    }
     let nbk = if n == 1 && reqs[0].route == "a" && rng.random_bool(0.15) { 2 } else { 1 };
     let timing = if rng.random_bool(0.3) { "ff" } else { "bf" };
     let scn = Scenario { id: run, front: front.into(), back: back.into(), mode: mode.into(), nbk, timing: timing.into(), gap_ms: if mode == "mux" { [0u64, 0, 1, 2, 5][rng.random_range(0..5)] } else { 0 }, reqs, sel: None };
